@@ -26,7 +26,9 @@ def rot_dim(d):
     return 3 if d == 3 else 1
 
 
-def discretize(g, mu, lam, bc):
+def discretize(g, mu, lam, bc, twice=False):
+    """Run the real Tpsa.discretize; ``twice`` repeats it on the same discretization object,
+    grid and data dictionary (the matrices of the second call are returned)."""
     import porepy as pp
 
     nc = g.num_cells
@@ -34,6 +36,11 @@ def discretize(g, mu, lam, bc):
     data = {pp.PARAMETERS: {KW: {"fourth_order_tensor": stiff, "bc": bc}}, pp.DISCRETIZATION_MATRICES: {KW: {}}}
     disc = pp.Tpsa(KW)
     disc.discretize(g, data)
+    if twice:
+        stiff0 = stiff.values.copy()
+        disc.discretize(g, data)
+        if not np.array_equal(stiff0, stiff.values):
+            raise AssertionError("Tpsa.discretize modified the stiffness tensor it was given")
     return disc, data[pp.DISCRETIZATION_MATRICES][KW]
 
 
